@@ -264,8 +264,13 @@ fn clusters_text(lines: &[String], no_norm: bool, tokenized: bool) -> String {
     let v: Vec<String> = lines
         .iter()
         .map(|l| {
-            let raw = if tokenized { Sentence::from_tokenized(l).map(|s| s.as_raw_text().to_string()).unwrap_or_default() } else { l.clone() };
-            let t = if no_norm { raw } else { KyteaFullwidthFilter.filter(&raw) };
+            // real code is used to prepare the case: a panic here must not take the generator down (the case then runs
+            // with an empty cluster list and `run` meets the same panic under its own catch)
+            let t = catch(|| {
+                let raw = if tokenized { Sentence::from_tokenized(l).map(|s| s.as_raw_text().to_string()).unwrap_or_default() } else { l.clone() };
+                if no_norm { raw } else { KyteaFullwidthFilter.filter(&raw) }
+            })
+            .unwrap_or_default();
             let c: Vec<String> = t.graphemes(true).map(|g| g.chars().count().to_string()).collect();
             if c.is_empty() { "_".to_string() } else { c.join(".") }
         })
